@@ -96,6 +96,35 @@ func goStructGetOwnProperty(obj *object, name string) *property {
 	return objectGetOwnProperty(obj, name)
 }
 
+// A field or method of the Go value is a writable, enumerable, non-configurable
+// data property that lives in the Go value. The generic [[DefineOwnProperty]]
+// does not see it and would store a second, unreachable property of the same
+// name: a new value is written to the field, a change of attributes is refused.
+func goStructDefineOwnProperty(obj *object, name string, descriptor property, throw bool) bool {
+	goObj := obj.value.(*goStructObject)
+	if !goObj.getValue(name).IsValid() {
+		return objectDefineOwnProperty(obj, name, descriptor, throw)
+	}
+	reject := func(reason string) bool {
+		if throw {
+			panic(obj.runtime.panicTypeError("Object.DefineOwnProperty: %s of a Go value: %s", name, reason))
+		}
+		return false
+	}
+	switch {
+	case descriptor.isAccessorDescriptor():
+		return reject("cannot become an accessor")
+	case descriptor.configurable(), descriptor.enumerateSet() && !descriptor.enumerable(), descriptor.writeSet() && !descriptor.writable():
+		return reject("attributes cannot change")
+	}
+	if value, ok := descriptor.value.(Value); ok {
+		if !goObj.setValue(obj.runtime, name, value) {
+			return reject("a method cannot be replaced")
+		}
+	}
+	return true
+}
+
 func validGoStructName(name string) bool {
 	if name == "" {
 		return false
